@@ -25,7 +25,7 @@ def in_rng(v, rng):
 
 
 def pbkeys(c, *msgs):
-    out = {"$alive": NEW, "$kind": NEW}
+    out = {"$alive": NEW}           # (message objects carry no $kind: allocation leaves the class table untouched)
     for m in msgs:
         for k in c.eng.schema.pb.keys_of(m):
             out[k] = NEW
@@ -47,6 +47,7 @@ def uuid_blob(u):
 class WriterBase(IoContract):
     props = ("C02", "C01")
     msg = None
+    alloc_only = True       # frame: only objects that did not exist before; every post clause is about the new message(s)
 
     def __init__(self):
         super().__init__()
@@ -603,6 +604,7 @@ class ToProtoBlock(IoContract):
     """ByteInterval._to_protobuf/to_proto_block: offset plus the code / data one-of holding the block's own message"""
     target = BI + "_to_protobuf/to_proto_block"
     props = ("C02", "C01")
+    alloc_only = True
 
     def __init__(self, cls):
         self.cls = cls
@@ -694,12 +696,109 @@ class DecodeSymExpr(IoContract):
                     c1.get("symbol2", e) == look("SymAddrAddr", "symbol2_uuid", aa)))}
 
 
+class ToProtoBlockAny(IoContract):
+    """to_proto_block for a block whose class is only known to be CodeBlock or DataBlock (an element of interval.blocks)"""
+    target = BI + "_to_protobuf/to_proto_block"
+    props = ("C02", "C01")
+    variant = "ByteBlock"
+    alloc_only = True
+    params = {"block": "ref:ByteBlock"}
+    result = "pb:Block"
+
+    def __init__(self):
+        super().__init__()
+        self.modifies = lambda c0, a: pbkeys(c0, "Block", "CodeBlock", "DataBlock")
+
+    def selects(self, self_cls, args, kwargs=None):
+        return args[0].cls not in ("CodeBlock", "DataBlock")
+
+    def pre(self, c, a):
+        b = a.block.t
+        code, data = c.kind(b) == c.eng.schema.class_id("CodeBlock"), c.kind(b) == c.eng.schema.class_id("DataBlock")
+        from pyvc.contracts import Args
+        a2 = Args()
+        a2["self"] = a.block
+        cpre = z3.And(list(CodeBlockToPb().pre(c, a2).values()))
+        dpre = z3.And(list(DataBlockToPb().pre(c, a2).values()))
+        return {"is_code_or_data_block": z3.Or(code, data), "offset_in_range": in_rng(c.get("_offset", b), U64),
+                "in_schema_range": z3.And(z3.Implies(code, cpre), z3.Implies(data, dpre))}
+
+    def post(self, c0, c1, a, res):
+        b, m = a.block.t, res.t
+        code = c0.kind(b) == c0.eng.schema.class_id("CodeBlock")
+        sub = z3.If(code, f(c1, "Block", "code", m), f(c1, "Block", "data", m))
+        return {"new_message": NEW(c0, a, m),
+                "offset": f(c1, "Block", "offset", m) == c0.get("_offset", b),
+                "one_of_selects_the_block_kind": z3.And(is_VRef(sub), oneof(c1, "Block", "value", m) == z3.If(
+                    code, VStr(z3.StringVal("code")), VStr(z3.StringVal("data")))),
+                "inner_uuid": z3.If(code, f(c1, "CodeBlock", "uuid", ref(sub)), f(c1, "DataBlock", "uuid", ref(sub)))
+                == uuid_blob(c0.get("uuid", b)),
+                "inner_size": z3.If(code, f(c1, "CodeBlock", "size", ref(sub)), f(c1, "DataBlock", "size", ref(sub)))
+                == c0.get("_size", b)}
+
+
+class IntervalBlocksFill(IoContract):
+    """ByteInterval._to_protobuf, block list: exactly one Block message per block of the interval, carrying that block's
+    offset, kind (one-of) and own message (map rule over to_proto_block)"""
+    target = "byteinterval.py::ByteInterval._to_protobuf"
+    variant = "blocks"
+    props = ("C02", "C01")
+    params = {"self": "ref:ByteInterval"}
+    closure = {"proto_interval": "pb:ByteInterval"}
+    selects = staticmethod(lambda self_cls, args, kwargs=None: False)
+    segment = (lambda src: src.startswith("def to_proto_block"), lambda src: src.startswith("for k, v in self.symbolic_expressions"))
+    part_note = "the nested helper to_proto_block and the fill of proto_interval.blocks"
+
+    def __init__(self):
+        super().__init__()
+
+        def mods(c0, a):
+            out = pbkeys(c0, "ByteInterval", "Block", "CodeBlock", "DataBlock")
+            own = lambda c0_, a_, r: z3.Or(r == a_.proto_interval.t, NEW(c0_, a_, r))
+            for k in ("#set", "#len", "#items"):
+                out["pb.ByteInterval.blocks" + k] = own
+            return out
+        self.modifies = mods
+
+    def pre(self, c, a):
+        from specs import forest
+        from pyvc.contracts import Args
+        bi = a.self.t
+        x = fresh("x", Val)
+        a2 = Args()
+        a2["block"] = SV("ref", ref(x), cls="ByteBlock")
+        bp = ToProtoBlockAny().pre(c, a2)
+        return {"blocks_in_range": z3.And(is_VRef(c.get("blocks", bi)), z3.ForAll([x], z3.Implies(
+            z3.Select(forest.data(c, c.get("blocks", bi)), x),
+            z3.And(is_VRef(x), z3.Select(c.arr("$alive"), ref(x)), *bp.values())))),
+                "message_alive": z3.Select(c.arr("$alive"), a.proto_interval.t)}
+
+    def post(self, c0, c1, a, res):
+        from specs import forest
+        bi, p = a.self.t, a.proto_interval.t
+        x, y = fresh("x", Val), fresh("y", Val)
+        S = forest.data(c0, c0.get("blocks", bi))
+        R = z3.Select(c1.arr("pb.ByteInterval.blocks#set"), p)
+        R0 = z3.Select(c0.arr("pb.ByteInterval.blocks#set"), p)
+
+        def same(b, m):
+            code = c0.kind(b) == c0.eng.schema.class_id("CodeBlock")
+            sub = z3.If(code, f(c1, "Block", "code", m), f(c1, "Block", "data", m))
+            return z3.And(f(c1, "Block", "offset", m) == c0.get("_offset", b), is_VRef(sub),
+                          z3.If(code, f(c1, "CodeBlock", "uuid", ref(sub)), f(c1, "DataBlock", "uuid", ref(sub)))
+                          == uuid_blob(c0.get("uuid", b)))
+        return {"every_block_is_written": z3.ForAll([x], z3.Implies(z3.Select(S, x), z3.Exists(
+                    [y], z3.And(z3.Select(R, y), is_VRef(y), same(ref(x), ref(y)))))),
+                "every_added_message_is_a_block": z3.ForAll([y], z3.Implies(z3.And(z3.Select(R, y), z3.Not(z3.Select(R0, y))), z3.Exists(
+                    [x], z3.And(z3.Select(S, x), is_VRef(y), same(ref(x), ref(y))))))}
+
+
 _reg_prev = register
 
 
 def register(reg):      # noqa: F811
     _reg_prev(reg)
-    for c in (ToProtoBlock("CodeBlock"), ToProtoBlock("DataBlock"), DecodeSymExpr()):
+    for c in (ToProtoBlock("CodeBlock"), ToProtoBlock("DataBlock"), DecodeSymExpr(), ToProtoBlockAny(), IntervalBlocksFill()):
         reg.add(c)
 
 
@@ -787,12 +886,27 @@ def _is_fill(src):
 
 
 class ModuleToPbScalars(WriterBase):
+    """Module._to_protobuf: every scalar field, and for proxies / sections / symbols exactly one message per member, each
+    carrying that member's own fields (map rule over the member writers' contracts); the AuxData fill is left out"""
     target = "module.py::Module._to_protobuf"
     msg = "Module"
     params = {"self": "ref:Module"}
-    drop_stmt = staticmethod(_is_fill)
-    part_note = "all statements except the fills of aux_data, proxies, sections, symbols"
+    drop_stmt = staticmethod(lambda src: src.startswith("self._write_protobuf_aux_data("))
+    part_note = "all statements except the fill of aux_data"
     ENUMS = {"isa": "Module.ISA", "file_format": "Module.FileFormat", "byte_order": "Module.ByteOrder"}
+    CHILD = {"proxies": "ProxyBlock", "sections": "Section", "symbols": "Symbol"}
+
+    def __init__(self):
+        super().__init__()
+        self.modifies = lambda c0, a: pbkeys(c0, "Module", "ProxyBlock", "Section", "Symbol", "ByteInterval", "Block", "CodeBlock",
+                                             "DataBlock", "SymbolicExpression", "SymAddrConst", "SymAddrAddr")
+
+    def may_raise(self, c0, a):
+        return {"Exception": z3.BoolVal(True)}        # whatever the (assumed) interval writer raises
+
+    def _members(self, c, m, field):
+        from specs import forest
+        return forest.data(c, c.get(field, m))
 
     def pre(self, c, a):
         m = a.self.t
@@ -800,9 +914,30 @@ class ModuleToPbScalars(WriterBase):
         en = [z3.And(is_VEnum(c.get(k, m)), ecls(c.get(k, m)) == c.eng.schema.class_id(q),
                      RANGES["int32"][0] <= enum_(c.get(k, m)), enum_(c.get(k, m)) <= RANGES["int32"][1])
               for k, q in self.ENUMS.items()]
-        return {"in_schema_range": z3.And(is_VUuid(c.get("uuid", m)), is_VStr(c.get("binary_path", m)), is_VStr(c.get("name", m)),
-                                          in_rng(c.get("preferred_addr", m), U64), in_rng(c.get("rebase_delta", m), I64), *en,
-                                          z3.Or(is_VNone(ep), z3.And(is_VRef(ep), is_VUuid(c.get("uuid", ref(ep))))))}
+        x = fresh("x", Val)
+        y = fresh("y", Val)
+        out = {"in_schema_range": z3.And(is_VUuid(c.get("uuid", m)), is_VStr(c.get("binary_path", m)), is_VStr(c.get("name", m)),
+                                         in_rng(c.get("preferred_addr", m), U64), in_rng(c.get("rebase_delta", m), I64), *en,
+                                         z3.Or(is_VNone(ep), z3.And(is_VRef(ep), is_VUuid(c.get("uuid", ref(ep))))))}
+        # the members are typed objects of their kind (forest invariant) in the schema's ranges
+        from pyvc.contracts import Args
+        def member_pre(field, K):
+            a2 = Args()
+            a2["self"] = SV("ref", ref(x), cls=self.CHILD[field])
+            clauses = K.pre(K, c, a2) if False else K().pre(c, a2)
+            extra = []
+            if field == "symbols":
+                pl = c.get("__payload", ref(x))
+                extra.append(z3.Implies(is_VRef(pl), z3.Select(c.arr("$alive"), ref(pl))))     # no dangling payload
+            return z3.ForAll([x], z3.Implies(z3.Select(self._members(c, m, field), x), z3.And(
+                is_VRef(x), z3.Select(c.arr("$alive"), ref(x)), c.kind(ref(x)) == c.eng.schema.class_id(self.CHILD[field]),
+                *(list(clauses.values()) + extra))))
+        out["wrappers"] = z3.And([is_VRef(c.get(fld, m)) for fld in self.CHILD])
+        out["proxies_in_range"] = member_pre("proxies", ProxyBlockToPb)
+        out["wrappers"] = z3.And(out["wrappers"])
+        out["sections_in_range"] = member_pre("sections", SectionToPbScalars)
+        out["symbols_in_range"] = member_pre("symbols", SymbolToPb)
+        return out
 
     def post(self, c0, c1, a, res):
         m, p = a.self.t, res.t
@@ -815,6 +950,20 @@ class ModuleToPbScalars(WriterBase):
             out[k] = f(c1, "Module", k, p) == c0.get(k, m)
         for k in self.ENUMS:
             out[k + "_number"] = f(c1, "Module", k, p) == VInt(enum_(c0.get(k, m)))
+        x, y = fresh("x", Val), fresh("y", Val)
+        same = {"proxies": lambda xo, ym: f(c1, "ProxyBlock", "uuid", ym) == uuid_blob(c0.get("uuid", xo)),
+                "sections": lambda xo, ym: z3.And(f(c1, "Section", "uuid", ym) == uuid_blob(c0.get("uuid", xo)),
+                                                  f(c1, "Section", "name", ym) == c0.get("name", xo)),
+                "symbols": lambda xo, ym: z3.And(f(c1, "Symbol", "uuid", ym) == uuid_blob(c0.get("uuid", xo)),
+                                                 f(c1, "Symbol", "name", ym) == c0.get("_name", xo),
+                                                 f(c1, "Symbol", "at_end", ym) == c0.get("at_end", xo))}
+        for field in self.CHILD:
+            S = self._members(c0, m, field)
+            R = z3.Select(c1.arr("pb.Module.%s#set" % field), p)
+            out["every_member_of_%s_is_written" % field] = z3.ForAll([x], z3.Implies(z3.Select(S, x), z3.Exists(
+                [y], z3.And(z3.Select(R, y), is_VRef(y), same[field](ref(x), ref(y))))))
+            out["every_message_in_%s_is_a_member" % field] = z3.ForAll([y], z3.Implies(z3.Select(R, y), z3.Exists(
+                [x], z3.And(z3.Select(S, x), is_VRef(y), same[field](ref(x), ref(y))))))
         return out
 
 
@@ -822,15 +971,26 @@ class SectionToPbScalars(WriterBase):
     target = "section.py::Section._to_protobuf"
     msg = "Section"
     params = {"self": "ref:Section"}
-    drop_stmt = staticmethod(lambda src: src.startswith("proto_section.byte_intervals.extend("))
-    part_note = "all statements except the fill of byte_intervals"
+    def __init__(self):
+        super().__init__()
+        self.modifies = lambda c0, a: pbkeys(c0, "Section", "ByteInterval", "Block", "CodeBlock", "DataBlock", "SymbolicExpression",
+                                             "SymAddrConst", "SymAddrAddr")
+
+    def may_raise(self, c0, a):
+        return {"Exception": z3.BoolVal(True)}        # whatever the (assumed) interval writer raises
 
     def pre(self, c, a):
+        from specs import forest
         s = a.self.t
         x = fresh("x", Val)
         flags = z3.Select(c.arr("Section.flags"), s)
+        members = forest.data(c, c.get("byte_intervals", s))
         return {"in_schema_range": z3.And(is_VUuid(c.get("uuid", s)), is_VStr(c.get("name", s)),
-                                          z3.ForAll([x], z3.Implies(z3.Select(flags, x), is_VEnum(x))))}
+                                          z3.ForAll([x], z3.Implies(z3.Select(flags, x), is_VEnum(x)))),
+                "intervals_typed": z3.And(is_VRef(c.get("byte_intervals", s)), z3.ForAll([x], z3.Implies(
+                    z3.Select(members, x), z3.And(is_VRef(x), z3.Select(c.arr("$alive"), ref(x)),
+                                                  c.kind(ref(x)) == c.eng.schema.class_id("ByteInterval"),
+                                                  is_VUuid(c.get("uuid", ref(x)))))))}
 
     def post(self, c0, c1, a, res):
         s, p = a.self.t, res.t
@@ -841,7 +1001,19 @@ class SectionToPbScalars(WriterBase):
         return {"new_message": NEW(c0, a, p), "uuid": f(c1, "Section", "uuid", p) == uuid_blob(c0.get("uuid", s)),
                 "name": f(c1, "Section", "name", p) == c0.get("name", s),
                 "flags_are_the_numbers_of_the_section_flags": z3.ForAll([x], z3.Select(written, x) == z3.Exists(
-                    [y], z3.And(z3.Select(flags, y), x == VInt(enum_(y)))))}
+                    [y], z3.And(z3.Select(flags, y), x == VInt(enum_(y))))),
+                **self._intervals(c0, c1, s, p)}
+
+    def _intervals(self, c0, c1, s, p):
+        from specs import forest
+        x, y = fresh("x", Val), fresh("y", Val)
+        S = forest.data(c0, c0.get("byte_intervals", s))
+        R = z3.Select(c1.arr("pb.Section.byte_intervals#set"), p)
+        same = lambda xo, ym: f(c1, "ByteInterval", "uuid", ym) == uuid_blob(c0.get("uuid", xo))
+        return {"every_interval_is_written": z3.ForAll([x], z3.Implies(z3.Select(S, x), z3.Exists(
+                    [y], z3.And(z3.Select(R, y), is_VRef(y), same(ref(x), ref(y)))))),
+                "every_written_message_is_an_interval": z3.ForAll([y], z3.Implies(z3.Select(R, y), z3.Exists(
+                    [x], z3.And(z3.Select(S, x), is_VRef(y), same(ref(x), ref(y))))))}
 
 
 class IrToPbScalars(WriterBase):
@@ -851,14 +1023,18 @@ class IrToPbScalars(WriterBase):
     props = ("C02", "C01", "C17")
     params = {"self": "ref:IR"}
     selects = staticmethod(lambda self_cls, args, kwargs=None: False)
-    drop_stmt = staticmethod(lambda src: src.startswith(("proto_ir.modules.extend(", "proto_cfg.edges.extend(",
-                                                         "self._write_protobuf_aux_data(")))
-    part_note = "all statements except the fills of modules, cfg.edges and aux_data"
+    drop_stmt = staticmethod(lambda src: src.startswith(("proto_cfg.edges.extend(", "self._write_protobuf_aux_data(")))
+    part_note = "all statements except the fills of cfg.edges and aux_data"
+
+    def may_raise(self, c0, a):
+        return {"Exception": z3.BoolVal(True)}
 
     def __init__(self):
         super().__init__()
         from pyvc.schema import REGION_KEYS
-        self.modifies = lambda c0, a: dict(pbkeys(c0, "IR", "CFG"), **{k: None for k in REGION_KEYS})
+        self.modifies = lambda c0, a: dict(pbkeys(c0, "IR", "CFG", "Module", "ProxyBlock", "Section", "Symbol", "ByteInterval", "Block",
+                                                  "CodeBlock", "DataBlock", "SymbolicExpression", "SymAddrConst", "SymAddrAddr"),
+                                           **{k: None for k in REGION_KEYS})
 
     def region_invariant(self, c):
         from specs import forest
@@ -871,6 +1047,18 @@ class IrToPbScalars(WriterBase):
         out = Aggregate("IR", "cfg_nodes").pre(c, a)
         out["in_schema_range"] = z3.And(is_VUuid(c.get("uuid", i)), in_rng(c.get("version", i), RANGES["uint32"]),
                                         z3.ForAll([n], z3.Implies(c.isinst(n, "Node"), is_VUuid(c.get("uuid", n)))))
+        # every module of the list satisfies the precondition of the module writer
+        from pyvc.contracts import Args
+        j = fresh("j", Int)
+        ml = c.get("modules", i)
+        items = z3.Select(c.arr("ListWrapper._data#items"), ref(ml))
+        ln = z3.Select(c.arr("ListWrapper._data#len"), ref(ml))
+        a2 = Args()
+        a2["self"] = SV("ref", ref(z3.Select(items, j)), cls="Module")
+        mp = ModuleToPbScalars().pre(c, a2)
+        out["modules_in_range"] = z3.ForAll([j], z3.Implies(z3.And(0 <= j, j < ln), z3.And(
+            is_VRef(z3.Select(items, j)), z3.Select(c.arr("$alive"), ref(z3.Select(items, j))),
+            c.kind(ref(z3.Select(items, j))) == c.eng.schema.class_id("Module"), *mp.values())))
         return out
 
     def post(self, c0, c1, a, res):
@@ -886,7 +1074,22 @@ class IrToPbScalars(WriterBase):
                 "version": f(c1, "IR", "version", p) == c0.get("version", i),
                 "cfg_present": is_VRef(cfg),
                 "vertices_name_every_cfg_node_of_the_ir": z3.ForAll([x], z3.Select(written, x) == z3.Exists(
-                    [v], z3.And(member, x == uuid_blob(c0.get("uuid", ref(v))))))}
+                    [v], z3.And(member, x == uuid_blob(c0.get("uuid", ref(v)))))),
+                **self._modules(c0, c1, i, p)}
+
+    def _modules(self, c0, c1, i, p):
+        j = fresh("j", Int)
+        y = fresh("y", Val)
+        ml = c0.get("modules", i)
+        items = z3.Select(c0.arr("ListWrapper._data#items"), ref(ml))
+        ln = z3.Select(c0.arr("ListWrapper._data#len"), ref(ml))
+        R = z3.Select(c1.arr("pb.IR.modules#set"), p)
+        same = lambda mo, ym: z3.And(f(c1, "Module", "uuid", ym) == uuid_blob(c0.get("uuid", mo)),
+                                     f(c1, "Module", "name", ym) == c0.get("name", mo))
+        return {"every_module_is_written": z3.ForAll([j], z3.Implies(z3.And(0 <= j, j < ln), z3.Exists(
+                    [y], z3.And(z3.Select(R, y), is_VRef(y), same(ref(z3.Select(items, j)), ref(y)))))),
+                "every_written_message_is_a_module": z3.ForAll([y], z3.Implies(z3.Select(R, y), z3.Exists(
+                    [j], z3.And(0 <= j, j < ln, is_VRef(y), same(ref(z3.Select(items, j)), ref(y))))))}
 
 
 class ModuleEntryPoint(IoContract):
@@ -938,6 +1141,7 @@ class ByteIntervalToPbScalars(WriterBase):
     target = "byteinterval.py::ByteInterval._to_protobuf"
     msg = "ByteInterval"
     variant = "scalars"
+    selects = staticmethod(lambda self_cls, args, kwargs=None: False)
     params = {"self": "ref:ByteInterval"}
     segment = (lambda src: src.startswith("proto_interval = "), lambda src: src.startswith("def to_proto_block"))
     part_note = "the statements before the nested helper to_proto_block (uuid, has_address, address, size, contents)"
@@ -967,9 +1171,36 @@ class ByteIntervalToPbScalars(WriterBase):
         return {"scalar_fields": z3.ForAll([p], z3.Implies(z3.And(NEW(c0, a, p), z3.Select(c1.arr("$alive"), p)), fields))}
 
 
+class ByteIntervalToPbAbstract(WriterBase):
+    """assumed at call sites (the body after the scalar segment - block list and symbolic expressions - is covered by
+    the bounded stand-in): ByteInterval._to_protobuf returns a new message carrying the interval's UUID"""
+    target = "byteinterval.py::ByteInterval._to_protobuf"
+    msg = "ByteInterval"
+    variant = "abstract"
+    props = ()
+    assumed = True
+    selects = staticmethod(lambda self_cls, args, kwargs=None: True)
+    params = {"self": "ref:ByteInterval"}
+
+    def __init__(self):
+        super().__init__()
+        self.modifies = lambda c0, a: pbkeys(c0, "ByteInterval", "Block", "CodeBlock", "DataBlock", "SymbolicExpression",
+                                             "SymAddrConst", "SymAddrAddr")
+
+    def pre(self, c, a):
+        return {"uuid_typed": is_VUuid(c.get("uuid", a.self.t))}
+
+    def may_raise(self, c0, a):
+        return {"Exception": z3.BoolVal(True)}
+
+    def post(self, c0, c1, a, res):
+        return {"new_message": NEW(c0, a, res.t), "uuid": f(c1, "ByteInterval", "uuid", res.t) == uuid_blob(c0.get("uuid", a.self.t))}
+
+
 _reg_prev4 = register
 
 
 def register(reg):      # noqa: F811
     _reg_prev4(reg)
     reg.add(ByteIntervalToPbScalars())
+    reg.add(ByteIntervalToPbAbstract())
